@@ -711,6 +711,11 @@ func (e *Engine) newSitesResult() *FuncResult {
 			known[f[0]] = true
 		}
 	}
+	for _, l := range loadLock(lockPath, "C03-sorted") {
+		if f := strings.Fields(l); len(f) > 0 {
+			known[f[0]] = true
+		}
+	}
 	n := 0
 	for _, s := range e.mapRangeSites() {
 		if s.Root.Pkg != nil {
@@ -1055,6 +1060,151 @@ func (e *Engine) keyedSitesResult() *FuncResult {
 	}
 	for name := range want {
 		_ = name // a keyed site that no longer exists as a map range cannot be order dependent any more
+	}
+	res.Obligs = ctx.obligs
+	return res
+}
+
+// comparesFieldDirectly: the comparator is `return s[i].F < s[j].F` (or >) with s one captured slice
+// variable, i and j its two parameters and F the named field - a total order on elements whose F values
+// are pairwise distinct.
+func comparesFieldDirectly(v ssa.Value, field string) bool {
+	var fn *ssa.Function
+	switch x := v.(type) {
+	case *ssa.MakeClosure:
+		fn, _ = x.Fn.(*ssa.Function)
+	case *ssa.Function:
+		fn = x
+	}
+	if fn == nil || len(fn.Params) != 2 {
+		return false
+	}
+	var ret *ssa.Return
+	n := 0
+	for _, b := range fn.Blocks {
+		for _, in := range b.Instrs {
+			switch x := in.(type) {
+			case *ssa.Return:
+				ret = x
+				n++
+			case *ssa.If, *ssa.Jump, *ssa.Call, *ssa.Store, *ssa.MapUpdate, *ssa.Lookup:
+				return false
+			}
+		}
+	}
+	if n != 1 || len(ret.Results) != 1 {
+		return false
+	}
+	cmp, ok := ret.Results[0].(*ssa.BinOp)
+	if !ok || (cmp.Op.String() != "<" && cmp.Op.String() != ">") {
+		return false
+	}
+	elemField := func(v ssa.Value) (src ssa.Value, idx ssa.Value, ok bool) {
+		ld, isLd := v.(*ssa.UnOp)
+		if !isLd {
+			return nil, nil, false
+		}
+		fa, isFA := ld.X.(*ssa.FieldAddr)
+		if !isFA {
+			return nil, nil, false
+		}
+		st, isSt := fa.X.Type().Underlying().(*types.Pointer).Elem().Underlying().(*types.Struct)
+		if !isSt || st.Field(fa.Field).Name() != field {
+			return nil, nil, false
+		}
+		ia, isIA := fa.X.(*ssa.IndexAddr)
+		if !isIA {
+			return nil, nil, false
+		}
+		s := ia.X
+		if sl, isL := s.(*ssa.UnOp); isL {
+			s = sl.X
+		}
+		return s, ia.Index, true
+	}
+	s1, i1, ok1 := elemField(cmp.X)
+	s2, i2, ok2 := elemField(cmp.Y)
+	if !ok1 || !ok2 || s1 != s2 {
+		return false
+	}
+	if _, isFV := s1.(*ssa.FreeVar); !isFV {
+		return false
+	}
+	return (i1 == ssa.Value(fn.Params[0]) && i2 == ssa.Value(fn.Params[1])) || (i1 == ssa.Value(fn.Params[1]) && i2 == ssa.Value(fn.Params[0]))
+}
+
+// sortedFieldSitesResult: map-range sites of the form "one struct field per map key, the fields sorted by
+// name afterwards" ("C03-sorted <site> <field>" lines of the lock). Two structural obligations per site:
+// every ast.NewStructField call of the loop body is named by the range key itself (distinct keys, distinct
+// names), and every sort.Slice of the function orders by that very field with < or > and nothing else - a
+// total order on the collected elements, so that the unstable sort has one possible outcome. (A comparator
+// that folds case, or compares a derived key, ties on distinct names and leaves map order visible.)
+func (e *Engine) sortedFieldSitesResult() *FuncResult {
+	ctx := newCtx(e, e.anyFunction())
+	ctx.fnKey = "map-range-sorted-field-sites"
+	res := &FuncResult{Key: "map-range-sorted-field-sites", Ctx: ctx}
+	want := map[string]string{}
+	for _, l := range loadLock(filepath.Join(verifRoot(), "obligations.lock"), "C03-sorted") {
+		if f := strings.Fields(l); len(f) >= 2 {
+			want[f[0]] = f[1]
+		}
+	}
+	for _, s := range e.mapRangeSites() {
+		field, ok := want[s.Name]
+		if !ok {
+			continue
+		}
+		fn := s.Fn
+		f := &Frame{ctx: ctx, fn: fn, tmap: TMap{}, vals: map[ssa.Value]Val{}}
+		f.analyzeLoops()
+		var li *loopInfo
+		var next *ssa.Next
+		for _, b := range fn.Blocks {
+			for _, in := range b.Instrs {
+				if nx, isNx := in.(*ssa.Next); isNx && nx.Iter == ssa.Value(s.Range) {
+					li, next = f.loops[b], nx
+				}
+			}
+		}
+		named, calls := li != nil, 0
+		if li != nil {
+			for b := range li.body {
+				for _, in := range b.Instrs {
+					c, isC := in.(*ssa.Call)
+					if !isC {
+						continue
+					}
+					sc := c.Call.StaticCallee()
+					if sc == nil || funcKey(sc) != "ast.NewStructField" || len(c.Call.Args) < 1 {
+						continue
+					}
+					calls++
+					ex, isEx := c.Call.Args[0].(*ssa.Extract)
+					if !isEx || ex.Tuple != ssa.Value(next) || ex.Index != 1 {
+						named = false
+					}
+				}
+			}
+		}
+		ctx.addOblig("commute", s.Name+":each-field-is-named-by-the-map-key-itself", BoolLit(named && calls > 0), s.Pos)
+		sorts, total := 0, true
+		for _, b := range fn.Blocks {
+			for _, in := range b.Instrs {
+				c, isC := in.(*ssa.Call)
+				if !isC {
+					continue
+				}
+				sc := c.Call.StaticCallee()
+				if sc == nil || sc.Pkg == nil || sc.Pkg.Pkg.Path() != "sort" || sc.Name() != "Slice" || len(c.Call.Args) != 2 {
+					continue
+				}
+				sorts++
+				if !comparesFieldDirectly(c.Call.Args[1], field) {
+					total = false
+				}
+			}
+		}
+		ctx.addOblig("commute", s.Name+":collected-fields-are-sorted-by-a-total-order-on-"+field, BoolLit(sorts > 0 && total), s.Pos)
 	}
 	res.Obligs = ctx.obligs
 	return res
